@@ -337,6 +337,38 @@ def corr_conv(run, quick):
     return b.flush()
 
 
+def corr_algebra(run, quick):
+    """the loops of Modes.conjugate / _real_func / _imag_func GENERATED from spherical/modes/algebra.py (Gen/AlgKern.lean), both the
+    fresh-output and the in-place form, against the real methods, bit for bit"""
+    import spherical
+    rng = run.rng
+    b = Batch(run)
+    nbad = 0
+    for L in ([0, 1, 2, 4] if quick else [0, 1, 2, 3, 4, 6, 9]):
+        for s in ([-2, -1, 0, 1, 3] if quick else range(-4, 5)):
+            if abs(s) > L and L > 0 and s not in (0, 1):
+                continue
+            for kind in ["random", "special", "nonfinite", "single"]:
+                n = (L + 1) ** 2
+                a = rand_weights(rng, n, kind)
+                f = spherical.Modes(a.copy(), spin_weight=s, ell_min=0, ell_max=L)
+                fin = f.ndarray.copy()
+                cases = [("conjugate", lambda g: g.conjugate()), ("conjugate_inplace", lambda g: g.conjugate(inplace=True))]
+                if s == 0:
+                    cases += [("real", lambda g: g.real), ("real_inplace", lambda g: g._real_func(True)),
+                              ("imag", lambda g: g.imag), ("imag_inplace", lambda g: g._imag_func(True))]
+                for name, fn in cases:
+                    g = f.copy()
+                    with np.errstate(all="ignore"):
+                        r = fn(g)
+                    meta = {"op": name, "s": s, "ell_max": L, "kind": kind, "model": "generated"}
+                    if name.endswith("_inplace") and r is not g:
+                        run.corr_break("corr:operators", {**meta, "layer": "in-place call did not return the receiver"})
+                        nbad += 1
+                    b.add(f"diff genalgop {name} {s} {L} " + cx_send(fin), cx_bits(r.ndarray), meta, f"genalgop:{name}:{kind}")
+    return nbad + b.flush()
+
+
 def corr(run, quick, parts=("modes", "arrays", "conv")):
     """returns the number of disagreements (each also recorded as a `corr:operators` break)"""
     nbad = 0
@@ -346,4 +378,6 @@ def corr(run, quick, parts=("modes", "arrays", "conv")):
         nbad += corr_arrays(run, quick)
     if "conv" in parts:
         nbad += corr_conv(run, quick)
+    if "algebra" in parts:
+        nbad += corr_algebra(run, quick)
     return nbad
